@@ -111,7 +111,33 @@ TraceProbe ==
               THEN Relations(e, obs[link[e.h][2]], link[e.h][1], o, store[link[e.h][2]])
               ELSE {})))
 
-Next == TraceNew \/ TraceDerive \/ TraceProbe
+(* history: the caller assigns new easy-sample counts to an object already queried  *)
+TraceSetEasy ==
+  /\ IsEvent("SetEasy")
+  /\ LET e == Log[l]
+         o == [store[e.h] EXCEPT !.ep = e.ep, !.en = e.en]
+     IN /\ store' = (e.h :> o) @@ store
+        /\ UNCHANGED <<obs, link>>
+        /\ Report(e, Failing({<<"C08.raised", e.exc = "">>,
+                              <<"C09.state_after_assigning_easy_counts", e.exc # "" \/ ObjOfRec(e.post) = o>>}))
+
+(* a pair (virtual easy samples, the same samples materialised) too large to mirror  *)
+(* (1e5..1e6 scores): thresholds in fixed point (score units / 1000) for the same    *)
+(* targets, matrices at the same thresholds; [lo, hi] = the scored range             *)
+TraceBigPair ==
+  /\ IsEvent("big_pair") /\ UNCHANGED <<store, obs, link>>
+  /\ LET e == Log[l]
+         ok == e.exc = ""
+     IN Report(e, Failing({
+          <<"C08.raised", ok>>,
+          <<"C09.same_thresholds", ~ok \/ \A m \in DOMAIN e.thrB :
+               /\ m \in DOMAIN e.thrA /\ Len(e.thrA[m]) = Len(e.thrB[m])
+               /\ \A i \in 1..Len(e.thrB[m]) :
+                    (e.thrB[m][i] >= e.lo /\ e.thrB[m][i] <= e.hi) => Close(e.thrA[m][i], e.thrB[m][i], 1)>>,
+          <<"C09.same_matrices", ~ok \/ (Len(e.cmA) = Len(e.cmB) /\ \A i \in 1..Len(e.cmA) :
+               Cells(e.cmA[i]) = Cells(e.cmB[i]))>>}))
+
+Next == TraceNew \/ TraceDerive \/ TraceProbe \/ TraceSetEasy \/ TraceBigPair
 Spec == Init /\ [][Next]_vars
 AllConsumed == TLCGet("stats").diameter - 1 = Len(Log)
 =============================================================================
